@@ -2,6 +2,7 @@ mod c03;
 mod c04;
 mod c05;
 mod c07;
+mod c10;
 mod c11;
 mod c14;
 mod interp;
@@ -37,6 +38,7 @@ fn main() {
                 "C04" => c04::generate(&mut s, tier, &mut rng),
                 "C05" => c05::generate(&mut s, tier, &mut rng),
                 "C07" => c07::generate(&mut s, tier, &mut rng),
+                "C10" => c10::generate(&mut s, tier, &mut rng),
                 "C11" => c11::generate(&mut s, tier, &mut rng),
                 "C14" => c14::generate(&mut s, tier, &mut rng),
                 _ => {
